@@ -306,7 +306,7 @@ pub fn run(ctx: &mut Ctx) {
         if !ctx.take("havoc", idx) {
             continue;
         }
-        if idx % 4096 == 0 && ctx.time_up() {
+        if ctx.stop("havoc") {
             break;
         }
         let mut r = ctx.rng("havoc", idx);
